@@ -5,6 +5,7 @@ package main
 
 import (
 	"encoding/json"
+	"errors"
 	"fmt"
 	"os"
 	"strconv"
@@ -33,6 +34,9 @@ type opT struct {
 	RT   int  `json:"res_type,omitempty"` // base.ResourceType passed with WithResourceType (0 = common ... 4)
 	In   bool `json:"inbound,omitempty"`  // WithTrafficType(base.Inbound) instead of the default outbound
 	Args bool `json:"args,omitempty"`     // WithArgs(...) given
+	// exit handlers registered with WhenExit on the admitted entry, in order: 1 returns nil, 2 returns an
+	// error, 3 panics.  Whatever they do, Exit frees the capacity (the model ignores them)
+	Hdl []int `json:"exit_handlers,omitempty"`
 }
 
 type seqCase struct {
@@ -99,6 +103,11 @@ func genSeq(r *rng.R, id int) seqCase {
 			o.RT = r.Intn(5)
 			o.In = r.Chance(1, 3)
 			o.Args = r.Chance(1, 4)
+		}
+		if r.Chance(1, 4) {
+			for n := 1 + r.Intn(2); n > 0; n-- {
+				o.Hdl = append(o.Hdl, int(r.PickI(1, 2, 2, hdlPanic)))
+			}
 		}
 		c.Ops = append(c.Ops, o)
 		enters = append(enters, i)
@@ -177,6 +186,18 @@ func runSeq(c seqCase) (obs []obsT, gauges []int64) {
 				obs = append(obs, obsT{Kind: "block", Idx: idx, Snap: snap, Type: b.BlockType().String()})
 			} else {
 				entries[i] = e
+				for _, h := range o.Hdl {
+					h := h
+					e.WhenExit(func(*base.SentinelEntry, *base.EntryContext) error {
+						switch h {
+						case 2:
+							return errors.New("exit handler failed")
+						case 3:
+							panic("exit handler panicked")
+						}
+						return nil
+					})
+				}
 				obs = append(obs, obsT{Kind: "pass"})
 			}
 		case "exit":
@@ -458,6 +479,9 @@ func coqConc(c concCase, evs []concEv, passed []bool, fg int64) string {
 
 const concBase = 100000
 
+// hdlPanic: the handler kind drawn for "panics".  3 = really panic.
+const hdlPanic = 3
+
 func main() {
 	a := cli.Parse()
 	env.Init(env.Options{})
@@ -466,7 +490,7 @@ func main() {
 	gclk = clk
 	root := rng.New(a.Seed)
 	rep := emit.NewReport("C04", a.Seed, a.Tier)
-	rep.Rule = "sequential: 1-3 resources x 1-3 isolation rules, 8-47 Entry/Exit ops (batches 0,1,2,N,N+1,2^32-1,2^32-2; exits out of order, repeated, of blocked ops; 3 in 10 requests enter the same resource name under another ResourceType / as inbound traffic / with arguments); concurrent: k=2-4 goroutines parked at the chain yield between rule check and statistics, random interleavings with releases. Non-trivial = the history contains at least one admission and one rejection (sequential) / at least two requests simultaneously inside the admission path (concurrent); distinct by full input. parallel (search only): 0-4 entries held open, 4-16 real goroutines entering/exiting the same resource in 10-30 bursts; at quiescence gauge = held entries, then sequential decisions with exactly that many in flight (batch N-held admitted, N-held single admissions, next rejected with snapshot N)."
+	rep.Rule = "sequential: 1-3 resources x 1-3 isolation rules, 8-47 Entry/Exit ops (batches 0,1,2,N,N+1,2^32-1,2^32-2; exits out of order, repeated, of blocked ops; 3 in 10 requests enter the same resource name under another ResourceType / as inbound traffic / with arguments; 1 in 4 admitted entries carry 1-2 WhenExit handlers returning nil / an error / panicking); concurrent: k=2-4 goroutines parked at the chain yield between rule check and statistics, random interleavings with releases. Non-trivial = the history contains at least one admission and one rejection (sequential) / at least two requests simultaneously inside the admission path (concurrent); distinct by full input. parallel (search only): 0-4 entries held open, 4-16 real goroutines entering/exiting the same resource in 10-30 bursts; at quiescence gauge = held entries, then sequential decisions with exactly that many in flight (batch N-held admitted, N-held single admissions, next rejected with snapshot N)."
 	nSeqCorr := a.Pick(a.N, 240, 4000)
 	nConcCorr := a.Pick(a.N, 80, 1500)
 	nSeqMon := a.Pick(a.Mon, 4000, 60000)
